@@ -221,7 +221,7 @@ class WeightedMean(SameArrayShapeMixin, Command):
         for weight, arr in zip(weights[1:], arrays[1:]):
             result = result + arr * weight
 
-        return result / sum(weights)
+        return numpy.ma.divide(result, sum(weights))
 
 
 class Normalize(Command):
